@@ -216,6 +216,10 @@ def gen_task_class():
                     d["raise_after"] -= 1
                     if d["raise_after"] < 0:
                         raise RuntimeError("scripted objective failure")
+                if d.get("nested"):
+                    # re-entrancy: this evaluation itself runs another optimizer instance to completion (meta-optimisation, a tuned inner solver):
+                    # the outer run's counters, rate history and population must be its own
+                    _inner_run()
                 name = d.get("objective", "zero")
                 if name.startswith("-"):      # the negated objective (C12: maximising f is minimising -f)
                     v = OBJECTIVE_TABLE[name[1:]](x)
@@ -237,6 +241,20 @@ def gen_task_class():
         globals()["GenTask"] = GenTask
         _GenTask = GenTask
     return _GenTask
+
+
+def _inner_run():
+    import pyvolutionary as pv
+    import numpy as _np
+    st = _np.random.get_state()
+    try:
+        inner = pv.ParticleSwarmOptimization(pv.ParticleSwarmOptimizationConfig(population_size=3, max_cycles=3, fitness_error=None, c1=1.0, c2=1.0, w=[0.4, 0.9]))
+        t = make_task([{"k": "cont", "lb": -1.0, "ub": 1.0}], "zero", seed=5)
+        import contextlib, io
+        with contextlib.redirect_stdout(io.StringIO()):
+            inner.optimize(t)
+    finally:
+        _np.random.set_state(st)       # the inner run re-seeds numpy's global generator: put the outer stream back
 
 
 def make_task(specs, objective="zero", data=None, names=None, **kw):
